@@ -52,7 +52,7 @@ func storeState(d *seams.SimDisk) string {
 func checkStore(r *core.Run, d *seams.SimDisk, where string) {
 	ctx := output.NewContext(context.Background(), &output.Options{Quiet: true})
 	ca := &gcsca.CertificateAuthority{Storage: &seams.SimDisk{R: r, Objects: d.Objects, Buckets: d.Buckets, FailCloseN: -1},
-		PrivateBucket: bucket, SigningCertDirInGCS: certDir(r), RootPath: rootPath}
+		PrivateBucket: bucket, SigningCertDirInGCS: certDir(r), RootPath: rootPathOf(r)}
 	primary, err := ca.PrimarySigningKeyVersion(ctx)
 	if err != nil {
 		r.Fail("manifest-unparseable", "fresh-authority", "%s: fresh authority cannot read its manifest: %v", where, err)
@@ -147,7 +147,12 @@ func runC11(r *core.Run) {
 	keep := r.Intn(2, "continue-from-order")
 	// the operator's spelling of --cert_dir: object names are literal strings in the store, and all
 	// of these name the same directory
-	if r.Chance(35, "cert-dir-spelling?") {
+	if r.Chance(4, "root-path-in-cert-dir?") {
+		// an unusual layout: --root_path names the object the root key version's own (DER) certificate
+		// is stored under. Refusing it is fine; what is written before that has to be consistent.
+		r.SetVar("root-path", "certs/GCE-cc-tcb-root-1.crt")
+		r.Probe("root-path-collides-with-root-certificate-object")
+	} else if r.Chance(35, "cert-dir-spelling?") {
 		r.SetVar("cert-dir", []string{"./certs", "certs//signing", "x/../certs", "certs/", "/certs"}[r.Intn(5, "cert-dir-spelling")])
 	}
 	var a *Authority
@@ -167,6 +172,16 @@ func runC11(r *core.Run) {
 		pre := b.Disk.Snapshot()
 		bootCN := cnPool[r.Intn(len(cnPool), "boot-cn")]
 		err, _ := b.Bootstrap(BootArgs{SignCN: bootCN})
+		if err != nil && rootPathOf(r) != rootPathDefault {
+			// the colliding layout is refused: fine, as long as every prefix of what it wrote holds
+			r.Eventf("bootstrap order=%d refused (%v), writes: %s", order, err, writeNames(b.Disk.Log))
+			checkPrefixes(r, pre, b.Disk.Log, fmt.Sprintf("bootstrap/order=%d/root-path-in-cert-dir", order), hist)
+			if order == 1 {
+				r.Sample = map[string]any{"config": cfg.String(), "history": "boot(refused: root path names a certificate object)"}
+				return
+			}
+			continue
+		}
 		if err != nil {
 			r.HarnessErr = fmt.Sprintf("fault-free bootstrap of an empty store failed: %v", err)
 			return
@@ -183,6 +198,28 @@ func runC11(r *core.Run) {
 			err, _ := lb.Bootstrap(BootArgs{SignCN: bootCN})
 			r.Eventf("bootstrap order=%d lost-write #%d -> %s, durable: %s", order, j, errClass(err, false), writeNames(lb.Disk.Log))
 			checkPrefixes(r, lpre, lb.Disk.Log, fmt.Sprintf("bootstrap/order=%d/lost-write@%d", order, j), hist)
+			// the operator bootstraps again over what that attempt left: a new process, new keys (other
+			// serial numbers too, sometimes), drawn flags. Refusing is fine; every prefix of what the
+			// second attempt makes durable is a consistent store.
+			if err != nil && r.Chance(40, "bootstrap-again-over-leftovers?") {
+				rb := NewAuthority(r, cfg, seams.NewPlanNone(r))
+				rb.Order = b.Order
+				rb.Keygen.Base = b.Keygen.Base + 5
+				rb.Disk = lb.Disk.Snapshot()
+				rb.Disk.FailCloseN = -1
+				rpre := rb.Disk.Snapshot()
+				// (--keep_going is not drawn here: a bootstrap with it keeps a stale root certificate, the
+				// known finding of §11.2 recorded under C12, and would be the same report again)
+				args := BootArgs{SignCN: bootCN, Flags: Flags{Overwrite: r.Chance(30, "again-overwrite")}}
+				if r.Bool("again-other-serials") {
+					args.RootSerial, args.SignSerial = 11, 12
+				}
+				start := len(rb.Disk.Log)
+				err2, _ := rb.Bootstrap(args)
+				r.Eventf("bootstrap again (ow=%v kg=%v serials=%d) -> %s, durable: %s", args.Overwrite, args.KeepGoing, args.RootSerial, errClass(err2, false), writeNames(rb.Disk.Log[start:]))
+				checkPrefixes(r, rpre, rb.Disk.Log[start:], fmt.Sprintf("bootstrap-again-after-lost-write@%d/ow=%v,kg=%v", j, args.Overwrite, args.KeepGoing), hist)
+				r.Probe("bootstrap-again-over-leftovers")
+			}
 		}
 		// ... and with one of its objects persistently unwritable (every attempt to store it fails)
 		seenObj := map[string]bool{}
